@@ -435,7 +435,24 @@ def rule_grind_test_is_der_pad(ctx: Ctx, rep: Report) -> None:
     rep.floor(rule, 12)
 
 
+def rule_bindings_behind_dispatch_(ctx: Ctx, rep: Report) -> None:
+    """C02.bindings_behind_dispatch: ECDSA's u1*G + u2*Q goes through `_jac_double_mult`,
+    and a digest that is 0 mod n makes u1 zero: the bindings refuse a zero
+    scalar, so their wrapper is reached through the dispatching functions and
+    their guards only (C01.bindings_behind_dispatch, reported here) -- else a
+    valid signature over such a digest verifies False with the bindings on."""
+    from rules import C01
+    tmp = Report("C01", rep.tier)
+    tmp.quiet = True
+    C01.rule_bindings_behind_dispatch(ctx, tmp)
+    for o in tmp.obs:
+        rep.ob("C02.bindings_behind_dispatch", o.instance, o.held, o.site, o.detail)
+    rep.floor("C02.bindings_behind_dispatch", 2)
+
+
 RULES = [
+    ("C02.bindings_behind_dispatch", rule_bindings_behind_dispatch_),
+
     ("C02.grind_test_is_der_pad", rule_grind_test_is_der_pad),
 
     ("C02.digest_length_enforced", rule_digest_length_enforced),
